@@ -96,7 +96,6 @@ NC_reset_maxopenfiles(int req_max)
     int  alloc_size;
     NC **newlist = NULL;
     int  i;
-    int  old_idx, new_idx; /* indices for the _cdfs list and the new list */
     int  ret_value = 0;
 
     /* Verify arguments */
@@ -149,6 +148,14 @@ NC_reset_maxopenfiles(int req_max)
         /* The requested max can be less than the current max */
         alloc_size = req_max;
 
+    /* Every open file keeps its slot (the slot number is part of all the ids
+       handed out for it), so the list cannot shrink below the high water mark */
+    if (alloc_size < _ncdf) {
+        NCadvise(NC_EINVAL, "Request max %d is below the highest file slot in use %d.  Keep current size.", req_max,
+                 _ncdf);
+        HGOTO_DONE(_cdfs_size);
+    }
+
     /* Allocate a new list */
     newlist = malloc(sizeof(NC *) * (size_t)alloc_size);
 
@@ -164,11 +171,10 @@ NC_reset_maxopenfiles(int req_max)
     for (i = 0; i < alloc_size; i++)
         newlist[i] = NULL;
 
-    /* Transfer all non-NULL pointers over to the new list and deallocate the
-       old list of pointers */
-    for (old_idx = 0, new_idx = 0; old_idx < _cdfs_size && new_idx < alloc_size; old_idx++)
-        if (_cdfs[old_idx] != NULL)
-            newlist[new_idx++] = _cdfs[old_idx];
+    /* Transfer all pointers over to the new list, each to the slot it had, and
+       deallocate the old list of pointers */
+    for (i = 0; i < _cdfs_size && i < alloc_size; i++)
+        newlist[i] = _cdfs[i];
     free(_cdfs);
 
     /* Set _cdfs to the new list */
